@@ -37,7 +37,7 @@ try:
     ran.append({"cmd": "pytest tests (with patch)", "result": tests})
     results = {}
     for c in checks:
-        r, dt = run([os.path.join(ROOT, "check"), c, "--tier", "quick"], env={"VERIF_REPO": wt, "PYTHONPATH": ""}, cwd=ROOT)
+        r, dt = run([os.path.join(ROOT, "check"), c, "--tier", "quick"], env={"VERIF_REPO": wt, "PYTHONPATH": "", "VERIF_EVIDENCE_DIR": wt + "-ev"}, cwd=ROOT)
         mech = [ln.strip() for ln in r.stdout.splitlines() if ln.strip().startswith("monitor=")][:3]
         results[c] = {"exit": r.returncode, "verdict": {0: "MISSED", 1: "caught", 2: "inconclusive"}.get(r.returncode, "?"),
                       "wall_s": round(dt, 1), "first_mechanisms": mech}
@@ -50,4 +50,5 @@ try:
     print(json.dumps({"verified": meta["verified"], "checks": results}, indent=1))
 finally:
     subprocess.call(["git", "-C", "/repo", "worktree", "remove", "--force", wt])
-    subprocess.call(["git", "-C", ROOT, "checkout", "--", "evidence"])
+    subprocess.call(["rm", "-rf", wt + "-ev"])
+    pass  # evidence of /repo is untouched: audit runs write to VERIF_EVIDENCE_DIR
